@@ -279,6 +279,12 @@ func init() {
 				fixed = append(fixed, &Program{Stmts: sp.Stmts})
 			}
 		}
+		// self tail calls whose parameters are captured by closures that outlive the iteration
+		for _, tp := range tailcallPrograms(r, []int{2, 3}, true) {
+			if c, _ := tp.Meta["capture"].(bool); c {
+				fixed = append(fixed, &Program{Stmts: tp.Stmts})
+			}
+		}
 		for i, base := range fixed {
 			ps = append(ps, variantsOf(r, base, 1000000+i)...)
 		}
